@@ -328,6 +328,73 @@ func main() {
 	defer run.Close()
 	snap := snapshotBytes(snapEntries, snapIndex)
 	r := hx.Rng(*seed, 0)
+	// snapshot sizes around the powers of two (batching / chunking boundaries of a recovery): recover, which is then
+	// acknowledged, and lose power at once; the reopened machine must be at the snapshot
+	for _, nk := range []int{1, 31, 32, 62, 63, 64, 65, 126, 127, 128, 129, 255, 256, 257, 1000} {
+		ents := map[string]string{}
+		for i := 0; i < nk; i++ {
+			ents[fmt.Sprintf("s%04d", i)] = fmt.Sprintf("val%d", i)
+		}
+		big := snapshotBytes(ents, uint64(10000+nk))
+		mem := vfs.NewStrictMem()
+		res := func() (res string) {
+			defer func() {
+				if r := recover(); r != nil {
+					res = fmt.Sprintf("panic-without-crash:%v", r)
+				}
+			}()
+			d := tests.NewDiskKVTest(1, 1).(*tests.DiskKVTest)
+			d.SetTestFS(mem)
+			if _, err := d.Open(nil); err != nil {
+				return "open-error:" + err.Error()
+			}
+			if _, err := d.Update([]sm.Entry{{Index: 1, Cmd: enc("k0", "v1")}}); err != nil {
+				return "update-error:" + err.Error()
+			}
+			if err := d.RecoverFromSnapshot(bytes.NewReader(big), nil); err != nil {
+				return "recover-error:" + err.Error()
+			}
+			// acknowledged; power is lost now
+			mem.SetIgnoreSyncs(true)
+			d.Close()
+			return ""
+		}()
+		run.Count("case:snapshot_size_then_power_loss")
+		if res == "" {
+			mem.ResetToSyncedState()
+			mem.SetIgnoreSyncs(false)
+			res = func() (res string) {
+				defer func() {
+					if r := recover(); r != nil {
+						res = fmt.Sprintf("reopen-panic:%v", r)
+					}
+				}()
+				d := tests.NewDiskKVTest(1, 1).(*tests.DiskKVTest)
+				d.SetTestFS(mem)
+				idx, err := d.Open(nil)
+				if err != nil {
+					return "reopen-error:" + err.Error()
+				}
+				defer d.Close()
+				if idx < uint64(10000+nk) {
+					return fmt.Sprintf("index-below-acknowledged: applied index %d after the power loss, the acknowledged recovery was at %d", idx, 10000+nk)
+				}
+				for k, want := range ents {
+					v, _ := d.Lookup([]byte(k))
+					if v == nil || string(v.([]byte)) != want {
+						return fmt.Sprintf("data-mismatch: key %s of the recovered snapshot is %v after the power loss", k, v)
+					}
+				}
+				return ""
+			}()
+		}
+		if res != "" {
+			sig := strings.SplitN(res, ":", 2)[0]
+			run.Violate(hx.Violation{Property: "C16", Clause: "recovery_durable_when_acknowledged", Signature: sig + "-after-recovery", Seq: -nk,
+				What: fmt.Sprintf("snapshot of %d keys recovered (acknowledged), power lost at once: %s", nk, res),
+				Ops:  map[string]interface{}{"snapshot_keys": nk, "sequence": "open; update; RecoverFromSnapshot; power loss; reopen"}})
+		}
+	}
 	for wi := 0; wi < *nw; wi++ {
 		w := workload{pre: r.Intn(4), sync: r.Intn(2) == 0, recover: r.Intn(4) != 0, post: r.Intn(3), reopen: r.Intn(2) == 0, tail: r.Intn(3)}
 		if wi == 0 {
